@@ -19,7 +19,7 @@ import (
 	"verif/simtest/c07"
 	_ "verif/simtest/c09" // registers C09PROBE/unobtainable-client-*
 	_ "verif/simtest/c10" // execution configurations of any shape, resolved for every validator
-	_ "verif/simtest/c12" // configuration source returning errors, null, garbled and partial documents
+	"verif/simtest/c12" // configuration source returning errors, null, garbled and partial documents
 	. "verif/simtest/env"
 	"verif/simtest/syssim"
 )
@@ -156,13 +156,20 @@ func init() {
 	}
 	// odd-content probes built with the proposer and auction scenarios: only crashes count here
 	for _, ref := range [][2]string{{"C05PROBE", "blinded-without-auction"}, {"C09PROBE", "unobtainable-client-best"}, {"C09PROBE", "unobtainable-client-deadline"},
-		{"C12", "config-source-chaos"}, {"C10", "precedence"}, {"C05", "propose"}} {
+		{"C12", "config-source-chaos"}, {"C10", "precedence"}, {"C05", "propose"}, {"C12", "config-shapes"}} {
+		name, w := ref[1], 1
+		if name == "config-shapes" {
+			ref[1], w = "config-source-chaos", 2
+		}
 		src := sim.Find(ref[0], ref[1])
 		if src == nil {
 			continue
 		}
-		inner := src.Exec
-		sim.Register(&sim.Scenario{Property: "C16", Name: ref[1], Gen: src.Gen, Weight: 1, Exec: func(plan any, sched *simrt.Tape) *sim.Outcome {
+		inner, g := src.Exec, src.Gen
+		if name == "config-shapes" {
+			g = c12.GenShaped
+		}
+		sim.Register(&sim.Scenario{Property: "C16", Name: name, Gen: g, Weight: w, Exec: func(plan any, sched *simrt.Tape) *sim.Outcome {
 			o := inner(plan, sched)
 			if o != nil && o.Violation != nil {
 				if strings.Contains(o.Violation.Kind, "panic") {
